@@ -655,7 +655,7 @@ def elements_of(p, fn, expr, depth=4, _seen=None):
                     if loop is not None:
                         out.add(f"each:{src(n.args[0])}|{src(loop.target)}|{src(loop.iter)}")
                     else:
-                        out |= _item(p, fn, n.args[0], depth - 1, _seen)
+                        out |= _item(p, fn, n.args[0], depth - 1, _seen, site=n)
                 elif n.func.attr in ("extend", "update"):
                     for a in n.args:
                         out |= elements_of(p, fn, a, depth - 1, _seen)
@@ -663,11 +663,13 @@ def elements_of(p, fn, expr, depth=4, _seen=None):
     return {"all:" + src(expr)}
 
 
-def _item(p, fn, e, depth, _seen):
+def _item(p, fn, e, depth, _seen, site=None):
     out = {"item:" + src(e)}
     if isinstance(e, ast.Name) and fn is not None:
         for n in walk_no_nested(fn):
             if isinstance(n, (ast.For, ast.AsyncFor)) and isinstance(n.target, ast.Name) and n.target.id == e.id:
+                if site is not None and not any(site is x for x in ast.walk(n)):
+                    continue    # the name is a loop variable elsewhere; this use is outside that loop (a reused name)
                 out |= elements_of(p, fn, n.iter, depth, _seen)
             elif isinstance(n, ast.Assign) and any(isinstance(t, ast.Name) and t.id == e.id for t in n.targets):
                 out.add("item:" + src(n.value))
